@@ -96,6 +96,10 @@ def oracle(res):
         bodies += ["<mrow><mtext>1%s1/2 cups</mtext><mo>+</mo><mn>3%s12</mn></mrow>" % (inv, inv),
                    "<mrow><mo>%s</mo><mi>y</mi><mo>=</mo><mn>2</mn><mi>x</mi></mrow>" % inv,
                    "<mrow><mi>%s%s</mi><mo>+</mo><mi>ab%sc</mi></mrow>" % (inv, inv, inv)]
+    # author ids of every kind (the id is how navigation marks its node: an id that is empty, blank, odd or repeated marks nothing in plain speech)
+    bodies += ["<mrow><mi id=''>x</mi><mo>+</mo><mn>1</mn></mrow>", "<mrow id=''><mfrac id=''><mn>1</mn><mi>x</mi></mfrac><mo id=' '>+</mo><mi>y</mi></mrow>",
+               "<mrow id='a'><mi id='a'>x</mi><mo id='a'>-</mo><msup id=''><mi id='[[x]]'>y</mi><mn id='0'>2</mn></msup></mrow>",
+               "<msqrt id=''><mrow><mi id=''>a</mi><mo>+</mo><mi id=''>b</mi></mrow></msqrt>"]
     found = 0
     sessions = []
     cfgs = configs(rng, res.tier)
